@@ -100,13 +100,13 @@ def _reg():
     add("equal_interval", 1, lambda r, v: classify.equal_interval(r[0], k=3), identity=True, nonconstant=True)
     for nm, nb in (("arvi", 3), ("evi", 3), ("gci", 2), ("nbr", 2), ("nbr2", 2), ("ndvi", 2), ("ndmi", 2), ("savi", 2), ("sipi", 3), ("ebbi", 3)):
         add(nm, nb, lambda r, v, nm=nm: getattr(ms, nm)(*r), identity=True)
-    add("true_color", 3, lambda r, v: ms.true_color(*r), own_shape=True)
-    add("proximity", 1, lambda r, v: X.proximity(r[0], max_distance=[np.inf, 2.0][v % 2]), identity=True, slow=True)
-    add("allocation", 1, lambda r, v: X.allocation(r[0]), identity=True, slow=True)
-    add("direction", 1, lambda r, v: X.direction(r[0]), identity=True, slow=True)
+    add("true_color", 3, lambda r, v: ms.true_color(*r), own_shape=True, needs_yx=True)
+    add("proximity", 1, lambda r, v: X.proximity(r[0], max_distance=[np.inf, 2.0][v % 2]), identity=True, slow=True, needs_yx=True)
+    add("allocation", 1, lambda r, v: X.allocation(r[0]), identity=True, slow=True, needs_yx=True)
+    add("direction", 1, lambda r, v: X.direction(r[0]), identity=True, slow=True, needs_yx=True)
     add("a_star_search", 1, lambda r, v: X.a_star_search(r[0], (float(r[0].y[0]), float(r[0].x[0])), (float(r[0].y[-1]), float(r[0].x[-1])),
-                                                          barriers=[0], snap_start=bool(v % 2), snap_goal=bool(v % 2)), identity=True, numpy_only=True)
-    add("viewshed", 1, lambda r, v: X.viewshed(r[0], x=float(r[0].x[1]), y=float(r[0].y[1]), observer_elev=1.0), identity=True, numpy_only=True, widen=True, finite=True)
+                                                          barriers=[0], snap_start=bool(v % 2), snap_goal=bool(v % 2)), identity=True, numpy_only=True, needs_yx=True)
+    add("viewshed", 1, lambda r, v: X.viewshed(r[0], x=float(r[0].x[1]), y=float(r[0].y[1]), observer_elev=1.0), identity=True, numpy_only=True, widen=True, finite=True, needs_yx=True)
     add("regions", 1, lambda r, v: X.regions(r[0], neighborhood=[4, 8][v % 2]), identity=True, numpy_only=True)
     add("trim", 1, lambda r, v: zonal.trim(r[0], values=[0]), view=True, numpy_only=True, keeps=True)
     add("crop", 2, lambda r, v: zonal.crop(r[0], r[1], zones_ids=[1, 2, 3, 4, 5]), view=True, numpy_only=True, view_of=1, keeps_crop=True)
@@ -126,7 +126,7 @@ def _reg():
         add("local_" + nm, 3, f, dataset=True, numpy_only=True, ref_int=nm in ("popularity", "rank"))
     add("polygonize", 1, lambda r, v: polygonize(r[0], connectivity=[4, 8][v % 2]), other=True, numpy_only=True, min2=True)
     add("perlin", 1, lambda r, v: X.perlin(r[0], seed=v), own_shape=True, float_only=True)
-    add("generate_terrain", 1, lambda r, v: X.generate_terrain(r[0], seed=v), own_shape=True, float_only=True, slow=True)
+    add("generate_terrain", 1, lambda r, v: X.generate_terrain(r[0], seed=v), own_shape=True, float_only=True, slow=True, needs_yx=True)
     return R_
 
 
@@ -165,12 +165,17 @@ class Executor:
             ch = (tuple(st_["chunks"][0]), tuple(st_["chunks"][1]))
             a = da.from_array(a, chunks=ch)
         h, w = a.shape
-        coords = {"y": st_["y0"] + st_["sy"] * np.arange(h, dtype="float64"), "x": st_["x0"] + st_["sx"] * np.arange(w, dtype="float64")}
+        dy, dx = st_.get("dims", ["y", "x"])
+        ys = st_["y0"] + st_["sy"] * np.arange(h, dtype="float64")
+        if st_.get("ydesc"):
+            ys = ys[::-1].copy()
+        coords = {dy: ys, dx: st_["x0"] + st_["sx"] * np.arange(w, dtype="float64")}
         if st_.get("scalar_coord"):
             coords["band"] = 7
         attrs = {"res": (st_["sx"], st_["sy"]), "meta": [1, [2, 3]]} if st_.get("attrs") else {}
-        d = xr.DataArray(a, dims=["y", "x"], coords=coords, attrs=attrs, name=st_.get("name"))
-        self.pool.append({"da": d, "snap": _snap(d), "desc": {"dtype": st_["spec"]["dtype"], "layout": st_["layout"], "backend": st_["backend"], "derived": False}})
+        d = xr.DataArray(a, dims=[dy, dx], coords=coords, attrs=attrs, name=st_.get("name"))
+        self.pool.append({"da": d, "snap": _snap(d), "desc": {"dtype": st_["spec"]["dtype"], "layout": st_["layout"], "backend": st_["backend"], "derived": False,
+                                                              "yx": (dy, dx) == ("y", "x")}})
 
     def _pick(self, idx, shape=None, pred=None):
         n = len(self.pool)
@@ -221,7 +226,7 @@ class Executor:
             if r.fails:
                 return "failed"
             if st_.get("keep", True) and out.ndim == 2 and out.shape[0] >= 3 and out.shape[1] >= 3 and out.dtype.kind in "fiu" and not flags.get("view"):
-                if set(out.dims) == {"y", "x"} and "y" in out.coords and "x" in out.coords and len(self.pool) < 12:
+                if len(out.dims) == 2 and all(dn in out.coords for dn in out.dims) and len(self.pool) < 12:
                     self.pool.append({"da": out, "snap": _snap(out), "desc": {"dtype": str(out.dtype), "layout": "C", "backend": "dask" if hasattr(out.data, "compute") else "numpy", "derived": True}})
         return "ok"
 
@@ -230,6 +235,10 @@ class Executor:
         desc = e["desc"]
         if flags.get("numpy_only") and desc["backend"] == "dask":
             return False
+        if flags.get("needs_yx") and tuple(d.dims[-2:]) != ("y", "x"):
+            return False   # called with its default x='x', y='y' / documented y-x coordinate names
+        if first is not None and tuple(first["da"].dims) != tuple(d.dims):
+            return False   # rasters of one call share their dimension names
         if first is not None and (flags.get("same_backend") or True) and (first["desc"]["backend"] != desc["backend"]):
             return False   # validate_arrays: all inputs of one call share a backend
         if flags.get("float_only") and d.dtype.kind != "f":
@@ -374,7 +383,8 @@ def new_step(draw, dtype=None, layout=None, backend=None, dtypes=None):
             "layout": layout or draw(st.sampled_from(["C", "F", "view", "ro"])), "backend": backend,
             "chunks": [draw(S.chunking(h)), draw(S.chunking(w))], "sy": draw(st.sampled_from([1.0, 0.5, 2.0])), "sx": draw(st.sampled_from([1.0, 0.5, 3.0])),
             "y0": draw(st.sampled_from([0.0, 10.5])), "x0": draw(st.sampled_from([0.0, -3.25])), "scalar_coord": draw(st.booleans()),
-            "attrs": draw(st.booleans()), "name": draw(st.sampled_from([None, "in"]))}
+            "attrs": draw(st.booleans()), "name": draw(st.sampled_from([None, "in"])),
+            "dims": draw(st.sampled_from([["y", "x"], ["y", "x"], ["lat", "lon"], ["row", "col"]])), "ydesc": draw(st.booleans())}
 
 
 @st.composite
@@ -418,6 +428,7 @@ def run_machine(ctx, max_examples, step_count, fast_only=False, dtypes=None):
                     s2["spec"]["data"] = [[(1 if isinstance(v, str) else v) for v in row] for row in s2["spec"]["data"]]
                 s2["backend"] = bk
                 s2["layout"] = "C" if bk == "dask" else s2["layout"]
+                s2["dims"] = a.get("dims", ["y", "x"])
                 self._do(s2)
 
         def _do(self, step):
